@@ -359,6 +359,16 @@ func init() {
 		}
 		return []Term{{S: s, Sort: SStr, GoT: f.typeOf(call)}}
 	})
+	reg("strconv.FormatFloat", "", func(f *FuncCtx, st *State, call *ast.CallExpr, _ ast.Expr, _ *Term) []Term {
+		use(f, "strconv.FormatFloat(x, 'g', -1, 64) is the per-value formatter fmt_g_F64 (injective on non-NaN values); other formats are opaque")
+		x := f.expr(st, call.Args[0])
+		fmtc, okf := f.tinfo().Types[call.Args[1]]
+		prec, okp := f.tinfo().Types[call.Args[2]]
+		if okf && okp && fmtc.Value != nil && prec.Value != nil && fmtc.Value.ExactString() == "103" && prec.Value.ExactString() == "-1" {
+			return []Term{{S: "(fmt_g_F64 " + x.S + ")", Sort: SStr, GoT: f.typeOf(call)}}
+		}
+		return []Term{f.havocVal(st, "fmtfloat", f.typeOf(call))}
+	})
 	// ---- strings.Builder (local variable receiver) ----
 	sb := func(name string, h func(f *FuncCtx, st *State, call *ast.CallExpr, cur Term, set func(Term)) []Term) {
 		intrinsics["(*strings.Builder)."+name] = &intrinsic{lvalueRecv: true, fn: func(f *FuncCtx, st *State, call *ast.CallExpr, recvE ast.Expr, _ *Term) []Term {
@@ -573,6 +583,9 @@ func fmtVerbs(format string) []byte {
 func fmtVerb(f *FuncCtx, verb string, v Term) string {
 	if (verb == "s" || verb == "v") && v.Sort == SStr {
 		return v.S
+	}
+	if verb == "q" && v.Sort == SStr {
+		return "(fmt_q_GoStr " + v.S + ")"
 	}
 	tn := mangle(v.Sort)
 	if v.GoT != nil {
